@@ -63,6 +63,28 @@ impl ValidatorSetExt for Set {
             bail_verification!("height ({}) != commit height ({})", height, commit.height,)
         }
 
+        // The validator set and the commit have a 1-to-1 correspondence, so every vote in the
+        // commit must come from the validator at the same index. The address is not covered
+        // by the vote signature and the loop below can return before reaching all the
+        // entries, so it is checked upfront.
+        for (idx, (validator, commit_sig)) in self
+            .validators()
+            .iter()
+            .zip(commit.signatures.iter())
+            .enumerate()
+        {
+            let address_matches = commit_sig
+                .validator_address()
+                .is_none_or(|address| address == validator.address);
+
+            if !address_matches {
+                bail_verification!(
+                    "commit signature at index {idx} has validator address other than ({})",
+                    validator.address,
+                )
+            }
+        }
+
         let mut tallied_voting_power = 0;
         let voting_power_needed =
             TrustLevelRatio::new(2, 3).voting_power_needed(self.total_voting_power())?;
@@ -454,6 +476,28 @@ mod tests {
         let mut commit = sample_commit();
         let val_set = sample_validator_set();
         commit.signatures.push(commit.signatures[0].clone());
+
+        val_set
+            .verify_commit_light(
+                &"private".to_string().try_into().unwrap(),
+                &1u32.into(),
+                &commit,
+            )
+            .unwrap_err();
+    }
+
+    #[test]
+    fn verify_commit_light_validator_address_mismatch() {
+        let mut commit = sample_commit();
+        let val_set = sample_validator_set();
+
+        let CommitSig::BlockIdFlagCommit {
+            validator_address, ..
+        } = &mut commit.signatures[0]
+        else {
+            unreachable!()
+        };
+        *validator_address = account::Id::new([1; 20]);
 
         val_set
             .verify_commit_light(
